@@ -722,7 +722,8 @@ MANIFEST = {
                   "C02_exclusion_exact hold for all library results, nets, draws and exclusion lists; the executable model is "
                   "compared with the real ParseIPNet on thousands of target strings, with the real ipGenerator (exact "
                   "sequences from seeded math/rand) and with parseExcludeFile + cidranger + the filter stage on whole subnets. "
-                  "C02_wire_confined / C02_scan_confined / C02_wire_never_foreign (Properties/C02Wire.v) carry confinement "
+                  "C02_wire_confined / C02_scan_confined / C02_wire_never_foreign and, for target files, C02_wire_confined_file / "
+                  "C02_scan_confined_file (Properties/C02Wire.v) carry confinement "
                   "through the engines: for every command, every worker count and EVERY schedule of every engine run, each frame "
                   "handed to the wire / target handed to Scan lies inside the net and outside the exclusion list.",
     "level_note": "Trusted: Coq kernel + VM, Go's net/netip parsers (oracle inputs, shape checked per case), cidranger "
